@@ -228,16 +228,6 @@ def family(noise=1.0, geom=0):
     _cl(n, "coordinates").obs = [Obs("coord", to="P", comps="xyz"), Obs("coord", to="Q", comps="z"), Obs("coord", to="Q", comps="xy")]
     _cl(n, "coordinates").cov = cov_family(6, 2, 100.0)
     add("coord.parts", n)
-    # every order of xy-only / z-only / xyz points in one cluster (2 and 3 elements, distinct and repeated ids),
-    # diagonal and banded covariance matrix: coords.<components>.<ids>.cov<band>
-    for seq, ids in coord_sequences():
-        dim = sum(len(c) for c in seq)
-        for b in (0, 1):
-            n = base3dr()
-            n.clusters.append(Cluster("coordinates", obs=[Obs("coord", to=i, comps=c) for c, i in zip(seq, ids)],
-                                      cov=cov_family(dim, b, 100.0)))
-            add("coords.%s.%s.cov%d" % ("+".join(seq), ids, b), n)
-
     # ---- instrument / target heights
     n = base3d()
     for o in _obs(n, "s-distance"): o.from_dh = 1.55; o.to_dh = 1.30
@@ -400,6 +390,16 @@ def family(noise=1.0, geom=0):
     for c in n.clusters:
         if c.frm in ren: c.frm = ren[c.frm]
     add("id.special", n)
+
+    # ---- <coordinates>: every order of xy-only / z-only / xyz points in one cluster (2 and 3 elements, distinct and repeated ids),
+    # diagonal and banded covariance matrix: coords.<components>.<ids>.cov<band>
+    for seq, ids in coord_sequences():
+        dim = sum(len(c) for c in seq)
+        for b in (0, 1):
+            n = base3dr()
+            n.clusters.append(Cluster("coordinates", obs=[Obs("coord", to=i, comps=c) for c, i in zip(seq, ids)],
+                                      cov=cov_family(dim, b, 100.0)))
+            add("coords.%s.%s.cov%d" % ("+".join(seq), ids, b), n)
     return F
 
 
